@@ -337,6 +337,9 @@ def classify(case):
 
 
 # ---------------------------------------------------------------- powers
+_SPECIAL_EXP = [0]
+
+
 def gen_pow_case(rng, tier):
     kind = rng.choice(['scalar_base', 'poly_exponent', 'complex_exponent', 'np_exponent', 'int_exponent', 'int_exponent'])
     D = rng.choice([1, 2, 3, 4, 5])
@@ -360,6 +363,11 @@ def gen_pow_case(rng, tier):
         y = numpy.zeros((D, P) + shp)
         for idx in numpy.ndindex(*y.shape):
             y[idx] = float(dy(rng, lo=-12, hi=12))
+        _SPECIAL_EXP[0] += 1
+        if _SPECIAL_EXP[0] % 2 == 0:
+            # the exponent's VALUE is the same shortcut-prone constant in every entry and direction (2, 0, 1, 3, -1, 1/2; scheduled, not
+            # drawn) while its higher coefficients are not zero: still exp(y log x), not x*x
+            y[0] = [2.0, 0.0, 1.0, 3.0, -1.0, 0.5][(_SPECIAL_EXP[0] // 2) % 6]
         case['y'] = enc(y)
     elif kind == 'complex_exponent':
         case['r'] = enc(rng.choice([complex(1, 2), complex(0.5, -1.5), numpy.complex128(2 + 1j), complex(-1.25, 0.5)]))
